@@ -34,6 +34,10 @@ CHECKS = {
             "Exploration with an exhaustive sub-space (all tree shapes with <=3 binary operators x all call/infix subsets x 4 tables) plus random trees with calls at every position (first/second argument, under unary functions, inside parentheses, symbolic and dual operators); positions reached are measured from the rendered tokens and required to be non-zero.",
             "Trusted: reference semantics; expand_calls (token-level rewrite literally following the property statement).",
             "DESIGN.md 3/C08"),
+    "C09": ("runtime monitor: differentiation histories (index sequences x four ways of differentiating) with hook H2 counting started derivative computations, exact-rational and guarded-f64 equivalence oracles",
+            "Exploration: index sequences of length 0..4 incl. out-of-range entries at every position, on FlatEx and DeepEx, through partial / partial_nth / partial_iter / relaxed variants; out-of-range must be Err with the H2 work counter unchanged; all ways agree at random points (exactly over rationals); order zero is the identity (also partial_nth(_,0)); mixed partials commute and match the nested-dual reference.",
+            "Trusted: hook H2 counts every call of partial_deepex; dual-number reference. Repeated single partial calls are allowed to work before reaching a bad index.",
+            "DESIGN.md 3/C09"),
     "C12": ("runtime monitor: print/parse and serde round trips over the term algebra (Debug form is a matcher literal by construction) and the shipped tables",
             "Exploration: parse->unparse byte identity; texts printed by deep, converted and derived (operator application, substitution, differentiation) expressions are re-parsed as flat and deep expressions and compared with the reference tree (mod AC); serde_json round trips. f64 prints with exponent/non-finite literals are counted and skipped (the property's proviso).",
             "Trusted: reference tree; a derivative's printed text can only bring back variables that still occur (C09 keeps the full list), so derivatives are compared binding by name.",
